@@ -713,6 +713,44 @@ fn nested_sources() -> Vec<String> {
     v
 }
 
+/// programs whose values form reference graphs: functions held in containers whose late-bound names lead back to the
+/// container (or round a cycle of two / three containers); output validation, JSON conversion and display must all end
+fn reference_sources() -> Vec<String> {
+    let mut v = Vec::new();
+    let containers: [&dyn Fn(&str) -> String; 6] = [
+        &|f| format!("{{start: 1, next: {}}}", f),
+        &|f| format!("[{}, 1]", f),
+        &|f| format!("{{a: {{b: [{}]}}}}", f),
+        &|f| format!("[[{}], {{k: {}}}]", f, f),
+        &|f| format!("{}", f),
+        &|f| format!("{{\"odd key\": {}, ...{{z: 1}}}}", f),
+    ];
+    let bodies: [&dyn Fn(&str) -> String; 7] = [
+        &|n| format!("n => {}", n),
+        &|n| format!("n => if n >= 3 then n else {}.next(n + 1)", n),
+        &|n| format!("() => [{}, {}]", n, n),
+        &|n| format!("(n, ...r) => {{k: {}}}", n),
+        &|n| format!("n => m => {}", n),
+        &|n| format!("n => do {{ t = {}; return t }}", n),
+        &|n| format!("(n, o?) => typeof({}) ?? o", n),
+    ];
+    for out in ["", "output "] {
+        for c in containers.iter() {
+            for b in bodies.iter() {
+                // the container's function mentions the container itself
+                v.push(format!("{}counter = {}\ncounter", out, c(&b("counter"))));
+                // two containers, each mentioning the other
+                v.push(format!("ping = {}\n{}pong = {}\nping\npong", c(&b("pong")), out, c(&b("ping"))));
+                // a ring of three, the last one an output
+                v.push(format!("r1 = {}\nr2 = {}\n{}r3 = {}\n[r1, r2, r3]", c(&b("r2")), c(&b("r3")), out, c(&b("r1"))));
+                // the name is bound first (captured, not late-bound), to a container holding a function that mentions a later name
+                v.push(format!("base = {}\nlater = {}\n{}top = {}", c(&b("later")), c(&b("base")), out, c(&b("base"))));
+            }
+        }
+    }
+    v
+}
+
 fn part_sources(ctx: &Ctx, sink: &mut Sink, j: &mut Journal) {
     let corp_f = corpus_flagged();
     let corp: Vec<String> = corp_f.iter().map(|(s, _)| s.clone()).collect();
@@ -743,6 +781,14 @@ fn part_sources(ctx: &Ctx, sink: &mut Sink, j: &mut Journal) {
     for (i, s) in nested_sources().iter().enumerate() {
         if ctx.mine(i as u64) {
             run(sink, j, s, "nested");
+        }
+    }
+    for (i, s) in reference_sources().iter().enumerate() {
+        if ctx.mine(i as u64) {
+            run(sink, j, s, "reference-graph");
+            if i % 7 == 0 {
+                sink.rec(json!({"t": "rec", "kind": "cli-src", "source": s}));
+            }
         }
     }
     // grammar-generated (well- and ill-typed)
